@@ -29,6 +29,7 @@ var propConfigs = map[string]*propConfig{
 	"C05": {replay: replayC05},
 	"C18": {replay: replayC18, undecided: "real interleavings and data races (timer field read/written without a common lock): contracts cover every sequence of Success/Fail/Proceed/expiry calls and the timer-fires-before-assignment schedule, not arbitrary intra-call interleavings"},
 	"C19": {replay: replayC18, undecided: "that time.AfterFunc fires after exactly the armed delay (A-TIMER); counts, order, armed delay and reset on progress are proved"},
+	"C14": {extra: sweepBrokerWrites, undecided: "that the broker's TCP connection is closed on every session end (close is in run's deferred function, outside the step contracts); only what is written before the close is decided"},
 	"C27": {undecided: "which of several matching callbacks is invoked (the property does not ask)"},
 	"C29": {undecided: "real interleavings: atomicity is derived from the proved lock coverage plus A-MUTEX / A-ATOMICPKG, not explored"},
 }
@@ -260,7 +261,13 @@ func (pc *propConfig) run(prop string, g *G, idx funcIndex, cs *contractSet, out
 			if other == nil {
 				fmt.Printf("KNOWN-FINDING: property=%s %s [%s]\n", prop, kf.Text, a.name)
 				knownHit = append(knownHit, a.name)
-				nDis++ // variant (a) discharged: no violation besides the listed witness
+				if kf.Witness == "" {
+					// the finding is the whole obligation: nothing about it is
+					// proved, so it is not counted among the obligations of the claim
+					nObl--
+				} else {
+					nDis++ // variant (a) discharged: no violation besides the listed witness
+				}
 				continue
 			}
 			a.worst = other
